@@ -14,7 +14,7 @@ CHECKS = {
  'C02': ('exploration',
    "reference-model runtime monitor: problems returned by the real ExternalEquivalenceTask::decompose evaluated on interpretations built from reference stable models of either side; 'some problem refuted' vs the reference witness condition (produces/determined)",
    'Held on every generated (task, flags, direction, interpretation) observed: an interpretation refutes an emitted problem exactly when the reference semantics says it witnesses a behavioural difference in that direction.',
-   "Trusted base: the oracle kit in /verif/harness/src/kit (three-valued evaluator over the infinite standard domain, ground mini-gringo reference semantics with reduct-based stable models, strict TFF reader); division follows the repository's documented convention; interpretations have finite or co-finite extents over small value pools. Stable models are enumerated for tiny programs only; interpretations are restricted to the vocabulary of the task.",
+   "Trusted base: the oracle kit in /verif/harness/src/kit (three-valued evaluator over the infinite standard domain, ground mini-gringo reference semantics with reduct-based stable models, strict TFF reader); division follows the repository's documented convention; interpretations have finite or co-finite extents over small value pools. Stable models are enumerated for tiny programs only; interpretations are restricted to the vocabulary of the task. The names of renamed private predicates and of renamed symbolic constants are read off the emitted problems (a renamed constant is read as the constant it stands for); no naming scheme is prescribed.",
    'DESIGN.md 5/C02'),
  'C03': ('exploration',
    'reference-model runtime monitor: problems of the real StrongEquivalenceTask::decompose evaluated under hp->H(p), tp->T(p) vs ground HT satisfaction of the two programs, incl. H not a subset of T',
@@ -82,7 +82,7 @@ CHECKS = {
    "Tree equality is anthem's derived PartialEq.",
    'DESIGN.md 5/C15'),
  'C16': ('exploration',
-   'crash monitor: mutated and generated inputs through an in-process catch_unwind pre-filter and the real release and dev binaries in subprocesses, classified by exit status, signal, stderr and CPU-time limit',
+   'crash monitor: mutated and generated inputs through a catch_unwind pre-filter (library calls in a child process under a CPU-time limit) and the real release and dev binaries in subprocesses, classified by exit status, signal, stderr and CPU-time limit (a run over 20 s is repeated with 300 s; only a run over that is a hang)',
    'No panic, abort, signal or CPU-limit hit on any (command, input) observed; reported errors and successes are counted separately.',
    'A non-zero exit with a message and no `panicked at` is a reported error; the dev profile adds overflow and debug assertions.',
    'DESIGN.md 5/C16'),
@@ -92,7 +92,7 @@ CHECKS = {
    "Trusted base: the oracle kit in /verif/harness/src/kit (three-valued evaluator over the infinite standard domain, ground mini-gringo reference semantics with reduct-based stable models, strict TFF reader); division follows the repository's documented convention; interpretations have finite or co-finite extents over small value pools.",
    'DESIGN.md 5/C17'),
  'C18': ('exploration',
-   'runtime monitor: node-visit counter inside the real apply_fixpoint (bounded progress, no wall clock), idempotence, and byte comparison of three runs of each command in fresh processes',
+   'runtime monitor: node-visit counter inside the real apply_fixpoint (bounded progress, no wall clock), idempotence, and byte comparison of three runs of each command in fresh processes (small generated inputs and large tasks with up to ~80 problem files)',
    'Every fixpoint run terminated within the step bound (max passes observed is reported) and was idempotent; all repeated CLI runs were byte-identical.',
    'Termination is decided as bounded progress.',
    'DESIGN.md 5/C18'),
